@@ -1247,3 +1247,70 @@ Proof.
         rewrite IH; [rewrite app_assoc; reflexivity|]. intros sl' Hin. apply H. right. auto. }
     apply G. intros sl Hin. apply In_nth_error in Hin. destruct Hin as [t Ht]. apply (SL _ _ Ht).
 Qed.
+
+(* ------------------------------------------------------------------ auto-create pool: overflow is destroyed *)
+Lemma pool_drops_spec : forall pcap npush npop, pool_drops pcap npush npop = true <-> pcap <= npush - npop.
+Proof.
+  intros. unfold pool_drops, pool_drop, queue_size, zn. destruct (Z.gtb_spec (Z.of_nat npush) (Z.of_nat npop)); rewrite Z.leb_le; lia.
+Qed.
+
+Theorem pa_overflow_destroyed : forall s t th a, nth_error (threads s) t = Some th -> tpc th = PSize2 a ->
+  pcap s <= npush s - a ->
+  exists s', step s t = Some s' /\ returned s' = returned s ++ buf th /\ tape s' = tape s /\
+             npush s' = npush s /\ npop s' = npop s.
+Proof.
+  intros s t th a H P L. unfold step. rewrite H. unfold step_thread. rewrite P.
+  apply pool_drops_spec in L. rewrite L. eexists. split; [reflexivity|]. cbn. auto.
+Qed.
+
+(* ------------------------------------------------------------------ non-vacuity witnesses *)
+Definition ex_progs : list (list op) := [[OAlloc 3; OFree 3; OAlloc 1]; [OAlloc 1; OFree 1]].
+Definition ex_sched : list nat := concat (repeat [0; 1; 1; 0] 40).
+Lemma ex_reach : exists s, Reach 2 0 ex_progs s /\ quiescent s = true /\ all_done s = true /\
+  tape_pages (tape s) <> [] /\ returned s <> [] /\ all_held s <> [].
+Proof.
+  exists (run st step (init 2 0 ex_progs) ex_sched). split; [exists ex_sched; reflexivity|].
+  vm_compute. repeat split; discriminate.
+Qed.
+Lemma ex_blocked : exists s, Reach 2 1 [[OSPop]; [ONew; OSPush]] s /\
+  (forall t th, nth_error (threads s) t = Some th ->
+     tpc th = Idle \/ exists i, tpc th = SWait false i /\ pop_ready (tape s) i = false) /\
+  (exists t th i, nth_error (threads s) t = Some th /\ tpc th = SWait false i).
+Proof.
+  exists (run st step (init 2 1 [[OSPop]; [ONew; OSPush]]) [0]). split; [exists [0]; reflexivity|]. split.
+  - intros [|[|t]] th H; vm_compute in H; inversion H; subst; vm_compute; eauto. destruct t; discriminate.
+  - exists 0. eexists. exists 0. vm_compute. split; reflexivity.
+Qed.
+Lemma ex_batch : BInv (brun (binit 2 2) [BAlloc 0; BAllocN 1 3; BFree 0; BAlloc 0]) /\
+  boutcome (brun (binit 2 2) [BAlloc 0; BAllocN 1 3; BFree 0; BAlloc 0]) = ([[1]; [2; 3; 4]], [[]; [5]], ([0], 6, 4%Z)).
+Proof.
+  split; [|vm_compute; reflexivity]. apply pb_inv; [lia|]. repeat constructor.
+Qed.
+
+Lemma batch_alloc1_batch : forall s t, batch (fst (batch_alloc1 s t)) = batch s.
+Proof. intros. unfold batch_alloc1. destruct (batch_has _ _); reflexivity. Qed.
+Lemma batch_allocn_batch : forall n s t, batch (fst (batch_allocn s t n)) = batch s.
+Proof.
+  induction n; intros; cbn [batch_allocn]; auto. pose proof (batch_alloc1_batch s t). destruct (batch_alloc1 s t) as [s1 p].
+  specialize (IHn s1 t). destruct (batch_allocn s1 t n). cbn [fst] in *. congruence.
+Qed.
+Lemma bstep_batch : forall s o, batch (bstep s o) = batch s.
+Proof.
+  intros s [t|t n|t|t n]; cbn [bstep].
+  - pose proof (batch_alloc1_batch s t). destruct (batch_alloc1 s t). exact H.
+  - pose proof (batch_allocn_batch n s t). destruct (batch_allocn s t n). exact H.
+  - destruct (nth t (bheld s) []); reflexivity.
+  - reflexivity.
+Qed.
+Lemma brun_batch : forall ops s, batch (brun s ops) = batch s.
+Proof. unfold brun. induction ops; intros; cbn [fold_left]; auto. rewrite IHops. apply bstep_batch. Qed.
+
+Theorem pb_dtor_run : forall ops b n, 1 <= b -> (Z.of_nat b < 2 ^ 64)%Z -> bops_ok n ops ->
+  let s := brun (binit b n) ops in
+  flat_map slot_rest (slots (bdtor s)) = [] /\ breturned (bdtor s) = breturned s ++ flat_map slot_rest (slots s) /\
+  bheld (bdtor s) = bheld s.
+Proof.
+  intros ops b n Hb W Hok s. apply pb_dtor_returns_buffers.
+  - apply (proj1 (pb_inv ops b n Hb Hok)).
+  - unfold s. rewrite brun_batch. exact W.
+Qed.
